@@ -9,7 +9,8 @@ RULE = ('structured lattice: counts {0,+-1,+-999,+-10^3,+-86399,+-86400, range e
         'cast boundaries, i64 extremes +-2, i64-nanosecond window ends, seconds = 59 mod 60} x nanosecond fields '
         '{0,1,10^9-1,10^9,2*10^9-1,2*10^9,u32::MAX}; date-times {range ends, epoch, 1677-09-21/2262-04-11 window, leap days, '
         'year 0/1} x seconds {0,59,60,763,85636,86399..} x fractions {0,1,ms/us boundaries, window fractions, leap}; '
-        'offsets {0,+-1,+-3600,+-86399}; SystemTime = UNIX_EPOCH +- Duration on the same lattice; plus seeded random draws; '
+        'offsets {0,+-1,+-3600,+-86399}; SystemTime = UNIX_EPOCH +- Duration on the same lattice; leap-second values '
+        '(fraction G, G+1, G+5*10^8, 2G-1 on seconds 59 / 86399 / 43259) before and after the epoch to SystemTime; plus seeded random draws; '
         'thorough adds every second of the days adjacent to both range ends and to the epoch')
 
 SEC_MIN, SEC_MAX = -8334601228800, 8210266876799
@@ -172,6 +173,12 @@ def cases(tier, rng):
     for d in dl[::7]:
         for o in OFFS:
             yield case_line('ts.tosys', d + [o])
+    # leap-second values (nanosecond field in [G, 2G)) to SystemTime, before and after the epoch
+    for (y, o) in [(1969, 365), (1960, 1), (1969, 1), (1970, 1), (2016, 366), (MIN_YEAR, 1), (MAX_YEAR, 365)]:
+        for s in (59, 86399, 43259):
+            for f in (G, G + 1, G + 5 * 10**8, 2 * G - 1):
+                for off in (0, 3600, -3600, 86399, -86399):
+                    yield case_line('ts.tosys', [y, o, s, f, off])
     for t in sys_lattice():
         yield case_line('ts.systime', *t)
     yield case_line('ts.systime', 2, 0, 0)
